@@ -34,6 +34,20 @@ CHECKS.update({
             TOWER_NOTE + "; sequential part only so far (lock-order / circular-wait exploration belongs to the concurrency rig)", "DESIGN.md section 6 C11"),
 })
 
+CHECKS["C03"] = ("fault_enumeration",
+    "crash-point enumeration on the real tower (hook crashpoint before/after every durable write and node RPC), restart on the same "
+    "SQLite file, each run validated by Trace_Tower.tla (CrashTags, Boot checks, RefFinal equality with the uninterrupted run); "
+    "Tower.tla model-checked by TLC",
+    "For every history of the corpus the crash points are counted and the history is re-run once per point (quick: ~20 points per "
+    "history; thorough: every point, plus random histories) with the code unwinding exactly there; everything in memory is dropped, "
+    "the tower is rebooted on the same database and catches up. TLC judges every such run against the specification: the crash "
+    "state lies between pre- and post-state of the interrupted action, no dangling rows, no slots granted, restart changes "
+    "nothing durable and keeps the tower id, and after a crash inside chain processing the final durable state equals the "
+    "uninterrupted run's.",
+    TOWER_NOTE + "; an in-process unwind + dropping all objects + reopening the SQLite file is equivalent to a process kill for the "
+    "durable state (open transactions roll back); the end-to-end teosd binary tier is not built yet",
+    "DESIGN.md section 6 C03")
+
 NOT_YET = {
 }
 
